@@ -59,7 +59,9 @@ func main() {
 	c := &ctx{tier: *tier, seed: seed, driver: *driver, res: core.NewResult(*prop, *tier, seed), rng: core.NewRand(seed)}
 	c.known = loadKnown(*knownPath, *prop)
 	c.corpus = loadCorpus(*corpusDir, *prop)
-	if err := f(c); err != nil {
+	err = f(c)
+	core.CleanupSessions()
+	if err != nil {
 		c.res.Notes = append(c.res.Notes, "harness error: "+err.Error())
 		c.res.Write(*out)
 		fmt.Fprintf(os.Stderr, "corr: %v\n", err)
@@ -67,6 +69,7 @@ func main() {
 	}
 	if supportsOnly[*prop] {
 		shrinkFirstFailure(c, f)
+		core.CleanupSessions()
 	}
 	if err := c.res.Write(*out); err != nil {
 		fmt.Fprintln(os.Stderr, err)
